@@ -230,3 +230,27 @@ Theorem C09_source_protocol_predicates : forall p : N,
   xl_protocol_isLowEntropyProtocol (Z.of_N p) = is_low_entropy p.
 Proof. exact xl_protocol_predicates_eq_model. Qed.
 Print Assumptions C09_source_protocol_predicates.
+
+(* the SOURCE of (c *aeadBlockCipher) increaseNonce as it is now (gen/Translated.v: the receiver's fields enableImplicitNonce and
+   implicitNonce are parameters, the assigned implicitNonce is the result, None = panic; bytes are Z) computes nonce_inc for
+   every non-empty nonce of bytes with implicit nonce mode on (Go slice lengths are below 2^63), so the k-th call on a
+   24-byte nonce yields nonce0 + k mod 2^192 and no nonce repeats within 2^192 calls *)
+From M Require Import proofs.TranslatedCipherProofs.
+Open Scope N_scope.
+
+Theorem C09_source_nonce_inc : forall n : list N,
+  n <> [] -> Forall byte_ok n -> (Z.of_nat (length n) < 2 ^ 63)%Z ->
+  xl_cipher_increaseNonce true (map Z.of_N n) = Some (map Z.of_N (nonce_inc n)).
+Proof. exact xl_increaseNonce_eq_model. Qed.
+Print Assumptions C09_source_nonce_inc.
+
+Theorem C09_source_nonce_progression : forall k n, N.of_nat (length n) = NonceSize -> Forall byte_ok n ->
+  exists m, xl_nonce_iter k (map Z.of_N n) = Some (map Z.of_N m) /\ be_val m = (be_val n + N.of_nat k) mod 2 ^ 192.
+Proof. exact xl_nonce_progression. Qed.
+Print Assumptions C09_source_nonce_progression.
+
+Theorem C09_source_nonce_never_repeats : forall j k n, N.of_nat (length n) = NonceSize -> Forall byte_ok n ->
+  (j < k)%nat -> N.of_nat (k - j) < 2 ^ 192 ->
+  exists a b, xl_nonce_iter j (map Z.of_N n) = Some a /\ xl_nonce_iter k (map Z.of_N n) = Some b /\ a <> b.
+Proof. exact xl_nonce_never_repeats. Qed.
+Print Assumptions C09_source_nonce_never_repeats.
